@@ -291,5 +291,59 @@ func runC19(r *Run) {
 				r.out.Sample(text + " = " + dumpValue(v))
 			}
 		}
+		// the same conversions through a marker and a local reference: the marked value is built first (as
+		// whatever Go value the event becomes) and then copied into the destination by the builders'
+		// reference resolution, a separate conversion path (seeded change C19B3 let a negative integer
+		// wrap into uint64 there)
+		if !finite || srcRat == nil {
+			return
+		}
+		for _, d := range convDests {
+			if d.class != "int" && d.class != "uint" && d.class != "float" {
+				continue
+			}
+			if d.class == "float" && srcClass != "int" {
+				continue
+			}
+			dt := reflect.TypeOf(d.template)
+			if dt.Kind() == reflect.Ptr {
+				continue
+			}
+			sty := reflect.StructOf([]reflect.StructField{{Name: "A", Type: reflect.TypeOf((*interface{})(nil)).Elem()}, {Name: "B", Type: dt}})
+			evs := []Event{{K: "bd"}, {K: "v"}, {K: "m"}}
+			keyA, keyB := Event{K: "s", AT: 1, D: []byte("A")}, Event{K: "s", AT: 1, D: []byte("B")}
+			if rng.P(1, 2) {
+				evs = append(evs, keyA, Event{K: "mk", D: []byte("a")}, src, keyB, Event{K: "ref", D: []byte("a")})
+			} else {
+				evs = append(evs, keyB, Event{K: "ref", D: []byte("a")}, keyA, Event{K: "mk", D: []byte("a")}, src)
+			}
+			evs = append(evs, Event{K: "end"}, Event{K: "ed"})
+			rdoc, err := cbeEncode(evs, cfg)
+			if err != nil {
+				continue
+			}
+			text := fmt.Sprintf("%s -> %s via reference", src.Text(), d.name)
+			r.out.Case(text, true)
+			r.out.Count("via-reference:" + d.class)
+			v, uerr, pan := safeCall(func() (interface{}, error) { return ce.UnmarshalFromCBEDocument(rdoc, reflect.Zero(sty).Interface(), cfg) })
+			if pan != nil {
+				r.out.Finding("C19", "panic:"+d.name, fmt.Sprintf("unmarshaling %s lets a panic escape: %v", text, pan), text)
+				continue
+			}
+			if uerr != nil || v == nil {
+				continue
+			}
+			rv := reflect.ValueOf(v)
+			for rv.Kind() == reflect.Ptr && !rv.IsNil() {
+				rv = rv.Elem()
+			}
+			if rv.Kind() != reflect.Struct {
+				continue
+			}
+			got, ok := valueRat(rv.Field(1))
+			if ok && got.Cmp(srcRat) != 0 {
+				r.out.Finding("C19", "inexact:"+srcClass+"->"+d.class+":via-reference", fmt.Sprintf("%s unmarshals without error but stores %s (exact value %s)", text, got.RatString(), srcRat.RatString()), text)
+			}
+		}
 	})
 }
